@@ -56,6 +56,16 @@ def place_font(vb, asc, desc, width, user=ID):
     return amul(user, base)
 
 
+def svg_stops(stops):
+    """SVG semantics of gradient stop offsets: each is clamped to [0, 1] and is at least the one before it"""
+    out, prev = [], 0.0
+    for off, rgb, a, idx in stops:
+        off = max(prev, min(1.0, max(0.0, off)))
+        out.append((off, rgb, a, idx))
+        prev = off
+    return out
+
+
 def parse_transform(s):
     t = ID
     if not s:
@@ -320,6 +330,7 @@ def expected_picture(pico_text, place):
             for st in g:
                 rgb, a, idx = parse_css_color(st.get("stop-color", "black"))
                 stops.append((_num(st.get("offset"), 0.0), rgb, a * _num(st.get("stop-opacity"), 1.0) * opacity, idx))
+            stops = svg_stops(stops)
             extend = g.get("spreadMethod", "pad")
             if g.tag == ns + "linearGradient":
                 p0 = (_num(g.get("x1"), 0.0), _num(g.get("y1"), 0.0))
@@ -507,6 +518,7 @@ def otsvg_picture(doc_text, gid, whole_document_to_font=None):
         for st in g:
             rgb, a, idx = parse_css_color(st.get("stop-color", "black"))
             stops.append((_num(st.get("offset"), 0.0), rgb, a * _num(st.get("stop-opacity"), 1.0) * opacity, idx))
+        stops = svg_stops(stops)
         extend = g.get("spreadMethod", "pad")
         if g.tag == SVGNS + "linearGradient":
             p0 = (_num(g.get("x1"), 0.0), _num(g.get("y1"), 0.0))
